@@ -8,7 +8,7 @@ from ..symval import Evaluator, Tup, Obj, Mat, NoneV, NONE, Str
 from ..symcheck import Oracle, check_equal, compare_values, show, leaves
 from ..rules import where
 from . import common
-from ..mutate import replace_in_function, substitute
+from ..mutate import replace_in_function, substitute, text_variant
 from . import c11
 
 META = {
@@ -260,4 +260,5 @@ def controls(repo):
             return ast.Constant(value=100000)
         substitute(fn, pred, make, limit=1, expect=1)
     out.append(('ppm-factor', repo.variant({'geodepy/transform.py': replace_in_function(src, 'conform7', unit)}), 'conform7::'))
+    out.append(('chained-index', text_variant(repo, 'geodepy/transform.py', 'q_mat[i, j] = vcv[i, j]', 'q_mat[i, j] = vcv[i][j]'), 'conform7::element-access'))
     return out
